@@ -39,7 +39,7 @@ func (c c25case) String() string {
 func TestC25(t *testing.T) {
 	r := vf.Start(t, "C25", vf.Exploration)
 	defer r.Finish()
-	r.SetRule("case = PRNG program over 3 peers of listen/session starts (1-3 concurrent duplicates per key), cancellations of the newest / oldest running call of a key, gate hold/release, cancel-everything, executed one op at a time or in bursts with quiescence points; plus programs around calls that END LATE: a Listen / Session call is parked in a Send (SetPeer / ClearPeer / Opened / Closed frame) on a stalled stream that not even a cancellation wakes, is replaced and / or cancelled while parked, every other call keeping the relay state of that peer / pair alive ends (trackers released), the same keys register again on fresh state with 0-2 further replacements (in half of the programs exactly as many as the parked call had seen), and only then the stalled write completes; every step there is followed by a quiescent point. Oracle at every quiescent point with all gates open: per key (listen:X / session:X->Y) at most one call is running; a call the harness did not cancel has ended only with ErrUserpedListen / ErrUserpedSession, and only if another call of its key was started in the same or a later quiescence interval (every call started before a quiescent point has registered by then, so an older call cannot be the replacer: the newest call of a key never ends as replaced); if no call of the key was cancelled exactly one is running; a call seen running does not survive a call started after that quiescent point; when no call is running VerifStateSizes() == (0,0). Non-trivial = at least one call was started (every such case ends with all calls cancelled and a leftover check); distinct = program")
+	r.SetRule("case = PRNG program over 3 peers of listen/session starts (1-3 concurrent duplicates per key), cancellations of the newest / oldest running call of a key, gate hold/release, cancel-everything, executed one op at a time or in bursts with quiescence points; plus programs around calls that END LATE: a Listen / Session call is parked in a Send (SetPeer / ClearPeer / Opened / Closed frame) on a stalled stream that not even a cancellation wakes, is replaced and / or cancelled while parked, every other call keeping the relay state of that peer / pair alive ends (trackers released), the same keys register again on fresh state with 0-2 further replacements (in half of the programs exactly as many as the parked call had seen), and only then the stalled write completes; every step there is followed by a quiescent point. Oracle at every quiescent point with all gates open: per key (listen:X / session:X->Y) at most one call is running; a call the harness did not cancel has ended only with ErrUserpedListen / ErrUserpedSession, and only if another call of its key was started in the same or a later quiescence interval (every call started before a quiescent point has registered by then, so an older call cannot be the replacer: the newest call of a key never ends as replaced); if no call of the key was cancelled exactly one is running; a call seen running does not survive a call started after that quiescent point; when no call is running VerifStateSizes() == (0,0). Further families: replacement of a Session call (either end, 1-2 newer calls) while a message is pending at the relay / relayed but not acknowledged / acknowledged with the ack on its way (ops M = honest message, A = ack of the last delivery); duplicate calls on streams that cancel themselves at a chosen point of the call's start-up (op X). Non-trivial = at least one call was started (every such case ends with all calls cancelled and a leftover check); distinct = program")
 	rng := r.Rand("c25")
 	pool := keys.Pool(rng, 3)
 	n := r.N(400, 15000)
@@ -115,6 +115,14 @@ func TestC25(t *testing.T) {
 	for k := r.N(140, 4000); k > 0; k-- {
 		cases = append(cases, c25case{ops: genC25Late(lrng), seq: false})
 	}
+	// replacement while a message is in flight; streams dying during start-up
+	mrng := r.Rand("c25-msg")
+	for k := r.N(160, 4000); k > 0; k-- {
+		cases = append(cases, c25case{ops: genC25Msg(mrng), seq: false})
+	}
+	for k := r.N(80, 2000); k > 0; k-- {
+		cases = append(cases, c25case{ops: genC25Dying(mrng), seq: mrng.IntN(3) == 0})
+	}
 	runParallel(len(cases), 16, func(i int) {
 		if i%16 == 0 {
 			r.Begin(fmt.Sprintf("batch around case %d: %s", i, cases[i]))
@@ -128,6 +136,7 @@ func runC25(r *vf.Run, pool []*keys.Identity, idx int, c c25case) {
 	w := newWorld(r, fmt.Sprintf("c25#%d[%s]", idx, c), pool)
 	defer w.end()
 	byKey := map[string][]*g7sig.Call{}
+	nMsg := 0
 	check := func() bool {
 		if !w.quiesce() {
 			return false
@@ -222,6 +231,50 @@ func runC25(r *vf.Run, pool []*keys.Identity, idx int, c c25case) {
 			if n > 1 {
 				r.Count("op_concurrent_duplicates", 1)
 			}
+		case op[0] == 'M':
+			// honest message on the newest running call i->j, stamped with the current
+			// epoch (programs put a quiescent point in front of M)
+			i, j := int(op[1]-'0'), int(op[2]-'0')
+			if cl := pick("S"+op[1:3], false); cl != nil {
+				if ret, _ := cl.Returned(); !ret {
+					e, _, _ := w.h.Srv.VerifSessionEpoch(pool[i].String(), pool[j].String())
+					nMsg++
+					m := g7sig.Honest(pool[i], []byte(fmt.Sprintf("%s|m%d", w.name, nMsg)), uint64(nMsg))
+					cl.Submit(g7sig.ReqSend(e, m))
+					w.logf("%s submits SendMsg(seq %d) session_seqno=%d", w.cstr(cl), nMsg, e)
+					r.Count("op_send_msg", 1)
+				}
+			}
+		case op[0] == 'A':
+			// the client behind the newest running call i->j acknowledges the last
+			// message delivered to it
+			i, j := int(op[1]-'0'), int(op[2]-'0')
+			if cl := pick("S"+op[1:3], false); cl != nil {
+				if ret, _ := cl.Returned(); !ret {
+					var seq uint64
+					found := false
+					for _, it := range cl.Outbox() {
+						if it.Kind == "recv" {
+							seq, found = it.U, true
+						}
+					}
+					if found {
+						e, _, _ := w.h.Srv.VerifSessionEpoch(pool[i].String(), pool[j].String())
+						cl.Submit(g7sig.ReqAck(e, seq))
+						w.logf("%s submits AckMsg(%d) session_seqno=%d", w.cstr(cl), seq, e)
+						r.Count("op_ack_msg", 1)
+					}
+				}
+			}
+		case op[0] == 'X':
+			// Session i->j on a stream that dies at point k of the call's start-up
+			i, j := int(op[1]-'0'), int(op[2]-'0')
+			at := g7sig.DiePoints[int(op[3]-'0')]
+			cl := w.h.StartSessionDying(pool[i].ID, pool[j].String(), at)
+			w.startGen[cl] = w.gen
+			w.logf("start %s on a stream that dies at %s", w.cstr(cl), at)
+			byKey["S"+op[1:3]] = append(byKey["S"+op[1:3]], cl)
+			r.Count("op_session_start_dying_"+at, 1)
 		case op[0] == 'K' || op[0] == 'O':
 			if cl := pick(op[1:], op[0] == 'O'); cl != nil {
 				w.kill(cl)
@@ -411,6 +464,114 @@ func genC25Late(rng *rand.Rand) []string {
 		add("E")
 	case 1:
 		add(fmt.Sprintf("L%d*1", b), "|")
+	}
+	return ops
+}
+
+// genC25Msg generates programs in which a Session call is REPLACED (same ordered
+// pair, 1-2 newer calls) while a message is in flight on the session: submitted
+// and still pending at the relay (the receiver's write loop is parked in the
+// Send of an earlier frame at a held gate), relayed to the receiver but not yet
+// acknowledged, or acknowledged with the ack on its way back; the replaced call
+// is the receiver's or the sender's, messages may flow in both directions.
+// Ops: M<i><j> = honest message on the newest call i->j, A<i><j> = that call's
+// client acknowledges the last message delivered to it. Oracle unchanged.
+func genC25Msg(rng *rand.Rand) []string {
+	var ops []string
+	add := func(s ...string) { ops = append(ops, s...) }
+	a := rng.IntN(3)
+	b := (a + 1 + rng.IntN(2)) % 3
+	A, B := fmt.Sprintf("S%d%d", a, b), fmt.Sprintf("S%d%d", b, a)
+	Mab, Mba := fmt.Sprintf("M%d%d", a, b), fmt.Sprintf("M%d%d", b, a)
+	Aba, Aab := fmt.Sprintf("A%d%d", b, a), fmt.Sprintf("A%d%d", a, b)
+	if rng.IntN(4) == 0 {
+		add(fmt.Sprintf("L%d*1", b))
+	}
+	add(A+"*1", B+"*1", "|")
+	for round := 1 + rng.IntN(3); round > 0; round-- {
+		held := false
+		// earlier, completed traffic
+		for k := rng.IntN(2); k > 0; k-- {
+			add(Mab, "|", Aba, "|")
+		}
+		switch rng.IntN(6) {
+		case 0, 1:
+			// relayed to b, not acknowledged
+			add(Mab, "|")
+		case 2:
+			// pending at the relay: b's write loop is parked in the Send of the first
+			// message, the second one waits
+			add(fmt.Sprintf("H%d", b), Mab, "|", Mab, "|")
+			held = true
+		case 3:
+			// b's write loop parked with the first message marked as transmitted
+			add(fmt.Sprintf("H%d", b), Mab, "|")
+			held = true
+		case 4:
+			// in flight in both directions
+			add(Mab, Mba, "|")
+		case 5:
+			// acknowledged, the ack is on its way back to a
+			add(Mab, "|", fmt.Sprintf("H%d", a), Aba, "|")
+			held = true
+		}
+		// the replacement
+		n := 1 + rng.IntN(2)
+		switch rng.IntN(5) {
+		case 0, 1, 2:
+			add(fmt.Sprintf("%s*%d", B, n), "|") // the receiver's call
+		case 3:
+			add(fmt.Sprintf("%s*%d", A, n), "|") // the sender's call
+		case 4:
+			add(fmt.Sprintf("%s*%d", B, n), fmt.Sprintf("%s*1", A), "|")
+		}
+		if held {
+			add(fmt.Sprintf("U%d", a), fmt.Sprintf("U%d", b), "|")
+		}
+		switch rng.IntN(4) {
+		case 0:
+			add(Aba, "|") // the new call's client has nothing to acknowledge, or does
+		case 1:
+			add(Mab, "|", Aba, Aab, "|")
+		case 2:
+			add("K"+B, "|", B+"*1", "|")
+		}
+	}
+	if rng.IntN(2) == 0 {
+		add("E")
+	}
+	return ops
+}
+
+// genC25Dying: duplicate / replaced calls whose stream dies at a chosen point of
+// the call's start-up (g7sig.DiePoints); X<i><j><k>. The leftover clause sees a
+// registration that is never undone.
+func genC25Dying(rng *rand.Rand) []string {
+	var ops []string
+	a := rng.IntN(3)
+	b := (a + 1 + rng.IntN(2)) % 3
+	l := 3 + rng.IntN(7)
+	for len(ops) < l {
+		i, j := a, b
+		if rng.IntN(3) == 0 {
+			i, j = b, a
+		}
+		switch k := rng.IntN(100); {
+		case k < 45:
+			ops = append(ops, fmt.Sprintf("X%d%d%d", i, j, rng.IntN(len(g7sig.DiePoints))))
+		case k < 65:
+			ops = append(ops, fmt.Sprintf("S%d%d*%d", i, j, 1+rng.IntN(2)))
+		case k < 75:
+			ops = append(ops, fmt.Sprintf("KS%d%d", i, j))
+		case k < 82:
+			ops = append(ops, fmt.Sprintf("L%d*1", j))
+		case k < 88:
+			ops = append(ops, "E")
+		default:
+			if len(ops) > 0 && ops[len(ops)-1] != "|" {
+				ops = append(ops, "|")
+			}
+		}
 	}
 	return ops
 }
